@@ -633,7 +633,7 @@ class KnownValue(Value):
         # Make sure e.g. 1 and True are handled differently.
         try:
             return hash((type(self.val), self.val))
-        except TypeError:
+        except Exception:
             # If the value is not directly hashable, hash it by identity instead. This breaks
             # the rule that x == y should imply hash(x) == hash(y), but hopefully that will
             # be fine.
